@@ -94,6 +94,9 @@ func (e *Engine) GenVC(fn *ssa.Function, opts VerifyOpts) (res *FuncVC) {
 	res.HasContract = fr.contract != nil
 	res.NumLoops = len(fr.loopOrd)
 	vc.opaque = map[string]bool{}
+	if fr.contract != nil && fr.contract.Options["heap-closedness"] {
+		vc.closedness = true
+	}
 	if fr.contract != nil {
 		for _, n := range fr.contract.Opaque {
 			vc.opaque[e.qualifySpecName(fn, n)] = true
@@ -240,6 +243,9 @@ func (f *FuncVC) Script(obs []*Oblig, timeoutMs int, models bool) string {
 	}
 	if strings.Contains(all, "(bor ") || strings.Contains(all, "(band ") || strings.Contains(all, "(bxor ") || strings.Contains(all, "(bshl ") || strings.Contains(all, "(bshr ") {
 		sb.WriteString(preludeBits)
+	}
+	if strings.Contains(all, "(eptr") || strings.Contains(all, "(sub ") {
+		sb.WriteString(preludePtr)
 	}
 	sb.WriteString(bs)
 	for _, o := range obs {
